@@ -8,8 +8,26 @@ A scenario is 1..6 consecutive refresh cycles of one Kafka cluster module.  Case
 
 `scnx` = some scripted answer has ErrNoError and no offsets (the implementation may panic; the probe runs those in a
 child process).  Output line: cycles joined by " | ", each
-  M<refresh attempted> F<fetchMetadata after> R <b:t:p,..|-> U <t:p:off:count,..|-> D <t,..|->     or CRASH
+  M<refresh attempted> F<fetchMetadata after> R <b:t:p,..|-> U <t:p:off:count,..|-> D <t,..|->     or CRASH | HANG
+
+Second format (what the generators below emit; the old one is still read: corpus, old replay files):
+
+  sc2|sc2x|sc2s|sc2w <kafka-version index> <ncycles> { <sd> <su> <rp> <rm> <cycle as above> }
+
+  kafka-version index: into KAFKA_VERSIONS (the probe configures the module through the real Configure with that
+      client-profile kafka-version; the scripted broker answers in the wire format of the request version it receives
+      and refuses versions the configured kafka-version does not have, as sarama does)
+  sd: the storage side takes nothing for 1.5 s from the start of the cycle (or until the first broker is asked)
+  su: the storage side takes nothing while broker answers are turned into requests (every 1 s timeout send is lost)
+  rp: the groups-reaper tick after the cycle finds a working ListConsumerGroups (storage answers FetchConsumers)
+  rm: client.RefreshMetadata returns an error in this cycle
+  kind suffix (routing inside the probe only): x = child process (may panic), s = unbuffered storage channel with a
+      scripted reader, run in parallel (real time: stalls), w = real sarama client against sarama.MockBroker (wire).
+  U / D = what the storage side RECEIVED.
 """
+
+KAFKA_VERSIONS = ["", "0.8", "0.8.2", "0.8.2.2", "0.9", "0.9.0.1", "0.10", "0.10.0.1", "0.10.1", "0.10.1.0",
+                  "0.10.2.1", "0.11.0.2", "1.0.0", "1.1.1", "2.0.0", "2.1.0", "2.4.0", "2.8.0", "3.6.0"]
 
 KERRORS = [3, 6, 5, 1, -1, 9, 7, 43]
 I64MAX = 2 ** 63 - 1
@@ -31,26 +49,36 @@ def _new_topic(rng, nb, np_=None):
     }
 
 
-def gen_scenario(rng, idx, force=None, bias=None, crash_p=0.01):
+def gen_scenario(rng, idx, force=None, bias=None, crash_p=0.01, mode=None, stall=(0.0, 0.0)):
     """Returns (case line, tags).  tags: set of fault / topology-change kinds present in the scenario.
-    bias="topics": topic-set trajectories (more vanishing / re-appearing topics, more refresh faults and ticks)."""
+    bias="topics": topic-set trajectories (more vanishing / re-appearing topics, more refresh faults and ticks).
+    mode=None: scripted client, buffered storage channel (kind sc2 / sc2x);
+    mode="stall": small layouts, the storage side stalls (kind sc2s): stall = (p of sd, p of su) per cycle;
+    mode="wire": what sarama.MockBroker can express (kind sc2w): every call succeeds, one offset per partition, a
+                 metadata tick in every cycle (the real client caches metadata between refreshes)."""
     tags = set()
     tb = bias == "topics"
-    ntop = rng.randint(1, 4)
+    small = mode in ("stall", "wire")
+    wire = mode == "wire"
+    ntop = rng.randint(1, 2 if mode == "stall" else (3 if wire else 4))
     nb = rng.randint(1, 3)
     world = {}
     for t in range(1, ntop + 1):
-        world[t] = _new_topic(rng, nb)
-        if rng.random() < 0.15:
+        world[t] = _new_topic(rng, nb, rng.choice([1, 2, 2]) if small else None)
+        if rng.random() < 0.15 and not (wire and t == 1):
             world[t]["present"] = False     # will (perhaps) appear later
-    ncyc = rng.randint(1, 6)
-    weird = rng.random() < 0.04
+    ncyc = rng.randint(1, 3) if wire else (rng.randint(2, 5) if mode == "stall" else rng.randint(1, 6))
+    weird = rng.random() < 0.04 and not small
     crash_cycle = None
-    if force == "crash" or (force is None and rng.random() < crash_p):
+    if not small and (force == "crash" or (force is None and rng.random() < crash_p)):
         crash_cycle = rng.randrange(0, ncyc)
+    kv = rng.randrange(0, len(KAFKA_VERSIONS))
+    tags.add("kafka-version:" + (KAFKA_VERSIONS[kv] or "(default)"))
+    n_sd = n_su = 0
     cycles = []
     for c in range(ncyc):
         # ---- topology changes since the last cycle
+        vanished_now = False
         if c > 0:
             for t, tw in world.items():
                 if tw["present"]:
@@ -58,12 +86,13 @@ def gen_scenario(rng, idx, force=None, bias=None, crash_p=0.01):
                     if r < (0.25 if tb else 0.12):
                         tw["present"] = False
                         tw["keep_rows"] = rng.random() < 0.5
+                        vanished_now = True
                         tags.add("topic-vanishes")
                     elif r < (0.35 if tb else 0.20):
                         for p in tw["ids"]:
                             tw["leader"][p] = None
                         tags.add("topic-loses-all-leaders")
-                    elif r < (0.40 if tb else 0.28) and len(tw["ids"]) < 6:
+                    elif r < (0.40 if tb else 0.28) and len(tw["ids"]) < (2 if small else 6):
                         p = len(tw["ids"])
                         tw["ids"].append(p)
                         tw["leader"][p] = None if rng.random() < 0.2 else rng.randrange(1, nb + 1)
@@ -95,30 +124,46 @@ def gen_scenario(rng, idx, force=None, bias=None, crash_p=0.01):
             for p in tw["ids"]:
                 tw["off"][p] = min(I64MAX, tw["off"][p] + rng.choice([0, 1, 5, 100, 10 ** 4]))
         # ---- faults of this cycle
-        tick = 1 if (rng.random() < (0.85 if c == 0 else (0.7 if tb else 0.4))) else 0
+        tick = 1 if (wire or rng.random() < (0.85 if (c == 0 or (mode == "stall" and vanished_now)) else (0.7 if tb else 0.4))) else 0
         topics_ok = 1
-        if rng.random() < (0.2 if tb else 0.15):
+        if not wire and rng.random() < (0.2 if tb else 0.15):
             topics_ok = 0
             tags.add("fault:topic-list")
         parts_fail = set()
-        if rng.random() < (0.2 if tb else 0.15):
+        if not wire and rng.random() < (0.2 if tb else 0.15):
             parts_fail.add(rng.randint(1, ntop))
             tags.add("fault:partition-list")
         all_tp = [(t, p) for t, tw in world.items() for p in tw["ids"]]
         leader_fail = set()
-        if all_tp and rng.random() < 0.15:
+        if not wire and all_tp and rng.random() < 0.15:
             for _ in range(rng.choice([1, 1, 2])):
                 leader_fail.add(rng.choice(all_tp))
             tags.add("fault:leader-lookup")
         failing = []
-        if rng.random() < 0.15:
+        if not wire and rng.random() < 0.15:
             failing = sorted(set(rng.randrange(1, nb + 1) for _ in range(rng.choice([1, 1, 2]))))
             tags.add("fault:broker-call")
         part_err = {}
-        if all_tp and rng.random() < 0.15:
+        if not wire and all_tp and rng.random() < 0.15:
             for _ in range(rng.choice([1, 1, 2, 3])):
                 part_err[rng.choice(all_tp)] = rng.choice(KERRORS)
             tags.add("fault:partition-error")
+        # ---- the storage side, the reaper, the metadata refresh call
+        sd = su = rp = rm = 0
+        if mode == "stall":
+            if n_sd < 3 and rng.random() < (max(stall[0], 0.75) if vanished_now else stall[0]):
+                sd, n_sd = 1, n_sd + 1
+                tags.add("storage:stall-at-cycle-start")
+            if n_su < 2 and rng.random() < stall[1]:
+                su, n_su = 1, n_su + 1
+                tags.add("storage:no-reader-during-updates")
+        if not wire:
+            if c > 0 and rng.random() < 0.08:
+                rp = 1
+                tags.add("reaper-run")
+            if rng.random() < 0.08:
+                rm = 1
+                tags.add("fault:refresh-metadata-call")
         empty = None
         if crash_cycle == c and all_tp:
             empty = rng.choice(all_tp)
@@ -129,10 +174,10 @@ def gen_scenario(rng, idx, force=None, bias=None, crash_p=0.01):
         if weird and tlist and rng.random() < 0.5:
             tlist.append(rng.choice(tlist))
             tags.add("weird:duplicate-topic")
-        toks = [str(tick), str(topics_ok), str(len(tlist))] + [str(t) for t in tlist]
+        toks = [str(sd), str(su), str(rp), str(rm), str(tick), str(topics_ok), str(len(tlist))] + [str(t) for t in tlist]
         rows = []
         for t, tw in world.items():
-            if not tw["present"] and not tw["keep_rows"]:
+            if not tw["present"] and (wire or not tw["keep_rows"]):
                 continue
             ids = list(tw["ids"])
             if weird and rng.random() < 0.3:
@@ -153,7 +198,7 @@ def gen_scenario(rng, idx, force=None, bias=None, crash_p=0.01):
                 if not tw["present"] and err == 0 and rng.random() < 0.6:
                     err = 3
                 offs = [tw["off"][p]]
-                if rng.random() < 0.05:
+                if not wire and rng.random() < 0.05:
                     offs.append(rng.randrange(0, 1000))
                 if empty == (t, p):
                     offs, err = [], 0
@@ -166,11 +211,16 @@ def gen_scenario(rng, idx, force=None, bias=None, crash_p=0.01):
             toks += rt
         toks += [str(len(failing))] + [str(b) for b in failing]
         cycles.append(toks)
-    body = [str(ncyc)]
+    body = [str(kv), str(ncyc)]
     for toks in cycles:
         body += toks
     line = " ".join(body)
-    kind = "scnx" if may_panic(parse("scn " + line)) else "scn"
+    if wire:
+        kind = "sc2w"
+    elif mode == "stall":
+        kind = "sc2s"
+    else:
+        kind = "sc2x" if may_panic(parse("sc2 " + line)) else "sc2"
     return kind + " " + line, tags
 
 
@@ -187,9 +237,16 @@ def parse(line):
         pos[0] += 1
         return v
 
+    scripted = f[0].startswith("sc2")
+    kv = int(nx()) if scripted else 0
     cycles = []
     for _ in range(int(nx())):
-        cyc = {"tick": nx() == "1", "topics_ok": nx() == "1"}
+        cyc = {"kv": kv, "sd": False, "su": False, "rp": False, "rm": False}
+        if scripted:
+            for k in ("sd", "su", "rp", "rm"):
+                cyc[k] = nx() == "1"
+        cyc["tick"] = nx() == "1"
+        cyc["topics_ok"] = nx() == "1"
         cyc["topics"] = [int(nx()) for _ in range(int(nx()))]
         table = {}
         for _ in range(int(nx())):
@@ -220,8 +277,8 @@ def parse_out(line):
     res = []
     for part in line.split(" | "):
         part = part.strip()
-        if part == "CRASH":
-            res.append("CRASH")
+        if part in ("CRASH", "HANG"):
+            res.append(part)
             continue
         f = part.split()
         d = {"M": f[0] == "M1", "F": f[1] == "F1", "X": " X " in (" " + part + " ")}
@@ -240,7 +297,7 @@ def project_c11(line):
     out = []
     for part in line.split(" | "):
         f = part.split()
-        out.append(part if part.strip() == "CRASH" or len(f) < 8 else " ".join(f[0:6] + f[8:]))
+        out.append(part if part.strip() in ("CRASH", "HANG") or len(f) < 8 else " ".join(f[0:6] + f[8:]))
     return " | ".join(out)
 
 
@@ -249,7 +306,7 @@ def project_c12(line):
     out = []
     for part in line.split(" | "):
         f = part.split()
-        out.append(part if part.strip() == "CRASH" or len(f) < 8 else " ".join([f[0]] + f[6:8]))
+        out.append(part if part.strip() in ("CRASH", "HANG") or len(f) < 8 else " ".join([f[0]] + f[6:8]))
     return " | ".join(out)
 
 
@@ -307,13 +364,28 @@ def _expect(cyc, snap):
 
 
 def oracle(case, out_line):
-    """Evaluates what the texts of C11 and C12 require on one observed run, from the scripted environment alone plus
+    f11, f12, _ = oracle_ex(case, out_line)
+    return f11, f12
+
+
+def oracle_ex(case, out_line):
+    """-> (c11_failures, c12_failures, index of the first cycle whose due answers include an ErrNoError block without
+    any offset -- from there on the texts say nothing -- or None).  Evaluates what the texts of C11 and C12 require on one observed run, from the scripted environment alone plus
     the observation of *whether* metadata was re-read in a cycle (M).  Returns (c11_failures, c12_failures): lists of
     (cycle index, text).  State carried: the last completely refreshed metadata (ghost) and whether the previous
-    cycle obliges a re-read."""
+    cycle obliges a re-read.
+
+    The storage side: U and D are what storage RECEIVED.  C12 ("reported to storage as deleted exactly once") is
+    demanded whatever the storage side does (sd, su).  C11's "every successful answer produces exactly one update" is
+    demanded in full only in cycles where the storage side was reading while the answers came in (su = 0: "storage
+    took the request within the timeout"); with su = 1 only soundness is demanded (every update received is a due one,
+    none twice).  The kafka-version never enters: the recorded offset must be the broker's answer for every legal
+    configuration.  A failing RefreshMetadata call (rm) is not mentioned by the texts: the re-read may or may not be
+    attempted then."""
     cycles = parse(case)
     obs = parse_out(out_line)
     f11, f12 = [], []
+    undefined_at = None
     ghost = None          # topic -> (ids with a leader at refresh time, total partition count, ids are 0..n-1)
     must_refresh = True   # Start() reads metadata in the first cycle
     for i, cyc in enumerate(cycles):
@@ -321,16 +393,21 @@ def oracle(case, out_line):
             f11.append((i, "no output for this cycle"))
             break
         o = obs[i]
+        if o == "HANG":
+            f11.append((i, "the module stopped taking ticks (getOffsets did not return within 45 s): no cycle, no update"))
+            break
         if o == "CRASH":
             cands = [ghost or {}]
             if _refreshed_snapshot(cyc) is not None:
                 cands.append(_refreshed_snapshot(cyc))
             if not any(_expect(cyc, sn)[4] for sn in cands):
                 f11.append((i, "implementation crashed in a cycle without an empty successful answer"))
+            else:
+                undefined_at = i
             break
         if o["X"]:
-            f11.append((i, "unexpected storage request / request block shape"))
-        if (must_refresh or cyc["tick"]) and not o["M"]:
+            f11.append((i, "unexpected storage request / request block not for the newest offset / reaper misbehaviour"))
+        if (must_refresh or cyc["tick"]) and not o["M"] and not cyc["rm"]:
             f11.append((i, "metadata not re-read although the ticker fired or the previous cycle saw an error / unknown leader"))
         new = _refreshed_snapshot(cyc) if o["M"] else None
         # C12: deletions exactly = topics of the last complete refresh that a complete refresh of this cycle lacks
@@ -338,8 +415,9 @@ def oracle(case, out_line):
         if new is not None and ghost is not None:
             want_d = sorted((t,) for t in ghost if t not in new)
         if o["D"] != want_d:
-            f12.append((i, "SetDeleteTopic %s, the property requires %s (complete refresh in this cycle: %s)"
-                        % (o["D"], want_d, new is not None)))
+            f12.append((i, "storage received SetDeleteTopic %s, the property requires %s (complete refresh in this cycle: %s%s)"
+                        % (o["D"], want_d, new is not None,
+                           "; storage was busy for 1.5 s at the start of the cycle" if cyc["sd"] else "")))
         if new is not None:
             ghost = new
         snap = ghost or {}
@@ -348,16 +426,32 @@ def oracle(case, out_line):
         if o["R"] != sorted(want_r):
             f11.append((i, "broker requests %s, the property requires %s" % (o["R"], sorted(want_r))))
         if undefined:
+            undefined_at = i
             break   # the texts say nothing about what follows
-        if o["U"] != sorted(want_u):
-            f11.append((i, "SetBrokerOffset %s, the property requires %s" % (o["U"], sorted(want_u))))
+        if cyc["su"]:
+            extra = [u for u in o["U"] if u not in want_u]
+            if extra or len(set(o["U"])) != len(o["U"]):
+                f11.append((i, "storage (not reading in time) received SetBrokerOffset %s; only %s were due, each at most once"
+                            % (o["U"], sorted(want_u))))
+        elif o["U"] != sorted(want_u):
+            f11.append((i, "SetBrokerOffset %s, the property requires %s (kafka-version %s)"
+                        % (o["U"], sorted(want_u), KAFKA_VERSIONS[cyc["kv"]] or "(default)")))
         for (t, p, off, count) in o["U"]:
             if t in snap and snap[t][2] and not 0 <= p < count:
                 f11.append((i, "update for partition %d with TopicPartitionCount %d" % (p, count)))
         must_refresh = unknown_leader or partition_error
         if must_refresh and not o["F"]:
             f11.append((i, "fetchMetadata not set after a partition error / unknown leader"))
-    return f11, f12
+    return f11, f12, undefined_at
+
+
+def first_difference(a, b, project):
+    """index of the first cycle in which the projected outputs differ"""
+    pa, pb = project(a).split(" | "), project(b).split(" | ")
+    for i, (x, y) in enumerate(zip(pa, pb)):
+        if x != y:
+            return i
+    return min(len(pa), len(pb))
 
 
 def kinds_of(cycles):
@@ -377,41 +471,96 @@ def run_check(chk, failed, which):
     project = project_c11 if which == 11 else project_c12
     bias = None if which == 11 else "topics"
     n = (5000 if which == 11 else 4000) if not chk.thorough else 150000
+    n_stall = 48 if not chk.thorough else 800
+    n_wire = (40 if which == 11 else 24) if not chk.thorough else 600
+    stall_p = (0.25, 0.5) if which == 11 else (0.6, 0.15)     # (p of sd, p of su) per cycle
     cases, tags = [], []
     for ln in C.read_corpus(pid):
         cases.append(ln)
         tags.append({"corpus"})
+    for i in range(n_stall):
+        ln, tg = gen_scenario(chk.rng, i, bias="topics", mode="stall", stall=stall_p)
+        cases.append(ln)
+        tags.append(tg)
+    for i in range(n_wire):
+        ln, tg = gen_scenario(chk.rng, i, bias=bias, mode="wire")
+        cases.append(ln)
+        tags.append(tg)
     for i in range(n):
         ln, tg = gen_scenario(chk.rng, i, bias=bias, crash_p=(0.012 if which == 11 else 0.003))
         cases.append(ln)
         tags.append(tg)
     chk.rule = (
-        "scenarios of 1..6 consecutive getOffsets cycles on a fresh module: 1-4 topics x 1-6 partitions, 1-3 brokers, each "
+        "scenarios of 1..6 consecutive cycles of a fresh module configured by the real Configure (client-profile "
+        "kafka-version drawn from 19 legal strings, 0.8 .. 3.6.0 and unset), cycle 0 as Start() runs it, later cycles through "
+        "the real mainLoop with scripted tickers: 1-4 topics x 1-6 partitions, 1-3 brokers, each "
         "partition leaderless with p=0.2; per cycle, each with p~0.15: Topics() failure, Partitions() failure, transient "
-        "Leader() failure, GetAvailableOffsets failure, per-partition KError; between cycles: leader change/loss/gain, "
+        "Leader() failure, GetAvailableOffsets failure, per-partition KError; RefreshMetadata error and a groups-reaper run "
+        "with p=0.08; between cycles: leader change/loss/gain, "
         "topics appearing / vanishing / re-appearing / losing all leaders, partitions added; metadata ticker per the case"
         + ("; C12 bias: topic-set trajectories (vanish 0.25, re-appear 0.5, tick 0.7, refresh faults 0.2)" if which == 12 else
            "; 1.2% of the scenarios script an ErrNoError answer without offsets (child process, CRASH compared)")
-        + ". non-trivial = at least one fault or topology change in the scenario (tag set non-empty); distinct by the case line")
+        + "; %d storage-stall scenarios (unbuffered storage channel, real time: the storage side takes nothing for 1.5 s at the "
+          "start of a cycle with p=%.2f / takes nothing while broker answers arrive with p=%.2f; topic-set bias) and %d wire "
+          "scenarios (real BurrowSaramaClient + sarama.Client against sarama.MockBroker: every answer goes through sarama's "
+          "encoder/decoder in the version of the request)" % (n_stall, stall_p[0], stall_p[1], n_wire)
+        + ". non-trivial = at least one fault, topology change or storage stall in the scenario; distinct by the case line")
     impl, model, mism = chk.differential("cluster", "cluster", "TestVerifProbeCluster", cases,
                                          name="scn%d" % which, project=project)
+    # The stall and wire scenarios run in real time (1 s timeouts, TCP on localhost): a mismatch there is re-run once
+    # on its own and only counts when it shows again.
+    timing = [i for (i, c, a, b) in mism if c.split(None, 1)[0] in ("sc2s", "sc2w")]
+    if timing:
+        impl2, model2, mism2 = chk.differential("cluster", "cluster", "TestVerifProbeCluster", [cases[i] for i in timing],
+                                                name="rerun%d" % which, project=project)
+        still = {timing[j] for (j, _, _, _) in mism2}
+        for j, i in enumerate(timing):
+            impl[i] = impl2[j]
+        chk.notes.append("%d real-time scenario(s) mismatched in the big run and were re-run on their own: %d still mismatch"
+                         % (len(timing), len(still)))
+        mism = [(i, c, impl[i], b) for (i, c, a, b) in mism if i not in timing or i in still]
+    # An ErrNoError block without any offset is outside both texts (the model, like HEAD, dies on Offsets[0]).  A
+    # difference that begins in such a cycle is recorded, not reported.
+    tolerated = []
+    for m in mism:
+        u = oracle_ex(m[1], m[2])[2]
+        if u is not None and first_difference(m[2], m[3], project) >= u:
+            tolerated.append(m)
+    if tolerated:
+        mism = [m for m in mism if m not in tolerated]
+        chk.count("tolerated:differs-from-the-model-only-after-an-empty-successful-answer", len(tolerated))
+        chk.notes.append("%d case(s) differ from the model only from a cycle on in which a broker answered ErrNoError without "
+                         "any offset (the model dies there like HEAD's Offsets[0]; the property texts do not cover it): "
+                         "first: %s -> impl %s / model %s" % (len(tolerated), tolerated[0][1], tolerated[0][2], tolerated[0][3]))
     n_orc_fail = 0
     first_orc = None
     for i, (c, tg, a) in enumerate(zip(cases, tags, impl)):
         cyc = parse(c)
-        if tg - {"corpus"}:
+        if any(not x.startswith("kafka-version:") for x in tg - {"corpus"}):
             chk.nontrivial.add(C.case_hash(c))
         else:
             chk.count("plain (no fault, no change)")
         for t in sorted(tg):
             chk.count(t)
         chk.count("cycles:%d" % len(cyc))
+        chk.count("kind:" + c.split(None, 1)[0])
+        obs0 = parse_out(a)
+        for cy, o in zip(cyc, obs0):
+            if isinstance(o, dict):
+                if cy["sd"] and o["D"]:
+                    chk.count("cycle:storage-stall-while-a-deletion-is-due")
+                if cy["su"] and o["R"]:
+                    chk.count("cycle:no-storage-reader-while-brokers-answer")
+                if cy["rp"]:
+                    chk.count("cycle:reaper-run")
         nt, nb = kinds_of(cyc)
         chk.count("topics:%d" % nt)
         chk.count("brokers:%d" % nb)
         obs = parse_out(a)
         if any(o == "CRASH" for o in obs):
             chk.count("impl:CRASH")
+        elif any(o == "HANG" for o in obs):
+            chk.count("impl:HANG")
         else:
             if any(o["D"] for o in obs):
                 chk.count("impl:some-deletion")
@@ -451,6 +600,8 @@ def run_check(chk, failed, which):
     if mism and not reported:
         # focused batch around the mismatch: same generator, 20x, oracle on the implementation only
         extra = [gen_scenario(chk.rng, j, bias=bias)[0] for j in range(20 * min(n, 1000))]
+        extra += [gen_scenario(chk.rng, j, bias="topics", mode="stall", stall=stall_p)[0] for j in range(200)]
+        extra += [gen_scenario(chk.rng, j, bias=bias, mode="wire")[0] for j in range(200)]
         impl2, model2, mism2 = chk.differential("cluster", "cluster", "TestVerifProbeCluster", extra,
                                                 name="focus%d" % which, project=project)
         for j, (c, a) in enumerate(zip(extra, impl2)):
@@ -475,7 +626,10 @@ def run_check(chk, failed, which):
     chk.assumptions += [
         "brokers answer exactly the blocks they were asked (the scripted broker does); a response block for a partition that was not asked is outside the model",
         "Topics/Partitions/Leader answer consistently within one cycle (one environment per cycle); Sarama returns duplicate-free topic and partition lists (the model and the probe agree on duplicates anyway)",
-        "StorageChannel accepts every request (TimeoutSendStorageRequest would drop a request after 1 s of back-pressure; the probe's channel is buffered)",
+        "storage side: the model states per offered broker-offset update whether storage takes it within the 1 s of TimeoutSendStorageRequest (storage_beh); the tie exercises the two constant behaviours (always in time / nobody reading while the brokers' answers arrive) and a 1.5 s stall at the start of a cycle; partial stalls (some updates of a cycle lost, which ones depends on Go map order) are covered by the theorems only",
+        "C11 'every successful answer produces exactly one update' is proved and checked under the named hypothesis storage_in_time (storage took the request within the timeout); without it only soundness (nothing fabricated, stale or doubled)",
+        "the request version is not in the model: the scripted broker answers in the wire format of the version it is asked in (v0: Offsets only; v1+: Offset/Timestamp, Offsets=[Offset]) and refuses versions the configured kafka-version lacks; the wire scenarios check that this is what sarama really does",
+        "RefreshMetadata errors are ignored by the module (and the model); the groups reaper does not touch the refresh state (checked: a reaper run between cycles changes nothing the model predicts)",
         "an ErrNoError block without offsets makes getOffsets panic (modelled as Crash, compared through a child process); the property texts do not cover such a broker",
         "count_bounds_partition assumes Kafka's contiguous partition ids (every id returned by Partitions(t) is in [0, len))",
     ]
